@@ -35,6 +35,14 @@ def resV (o : Outcome String) : String :=
 
 def parseList (s : String) : Option (List Nat) :=
   if s == "-" then some [] else
+  -- `gen:<n>:<seed>` (hex): the n consecutive values seed+1, …, seed+n
+  if s.startsWith "gen:" then
+    match (s.drop 4).toString.splitOn ":" with
+    | [n, sd] => match parseHexNat n, parseHexNat sd with
+      | some n, some sd => some ((List.range n).map (fun i => sd + i + 1))
+      | _, _ => none
+    | _ => none
+  else
   (s.splitOn ",").foldr (fun w acc => match parseHexNat w, acc with
     | some v, some l => some (v :: l)
     | _, _ => none) (some [])
@@ -213,6 +221,22 @@ def stepInst (e : TEnv) (inst : Inst) (w : List String) : Inst × String :=
           if Ideal.computeRoot H lf p == t.nodeFast H 0 0 0 then "accepted" else "rejected"
         else "err")
     | _, _, _ => (inst, "bad-op")
+  -- per level, the sum modulo p of all subtree roots of that level (a full scan of a big tree in one line)
+  | _, ["digest"] =>
+    let d : Nat := match inst with
+      | .full t => t.depth | .opt t => t.depth | .pm t => t.depth | .ideal t _ => t.depth
+    let lv : List (List Nat) := match inst with
+      | .ideal t _ => (t.levels H 0).reverse
+      | _ => (List.range (d + 1)).map (fun l => (List.range (2 ^ l)).map (fun j =>
+          let idx := j * 2 ^ (d - l)
+          match (match inst with
+            | .full t => t.getSubtreeRoot l idx
+            | .opt t => t.getSubtreeRoot l idx
+            | .pm t => t.getSubtreeRoot l idx
+            | .ideal _ _ => .err) with
+          | .ok v => v
+          | _ => 0))
+    (inst, showList (lv.map (fun l => fr (l.foldl (fun a v => (a + v) % P) 0))))
   -- every observable at once (small depths): root, high-water mark, leaves, every subtree root, empties
   | _, ["obs"] =>
     let (d, root, next, empt) : Nat × Nat × Nat × List Nat := match inst with
